@@ -80,7 +80,7 @@ class Race:
 
     def send(self, key, tag, buffered=True):
         n, c, t = key
-        m = Message(n, c, 1, 0, t, f"tag{tag}")
+        m = Message(n, c, 1, tag % 2, t, f"tag{tag}")   # the ack flag varies between the sends
         task = self.loop.create_task(self.gw.send(m, message_buffer=buffered))
         self.send_tasks.append(task)
         self.spin(3)
@@ -148,7 +148,7 @@ class Race:
         out = []
         for line, ok in self.tr.done:
             f = line.rstrip("\n").split(";", 5)
-            if ok and f[2] == "1" and f[5].startswith("tag"):
+            if ok and f[2] == "1" and f[5].startswith("tag"):  # (ack flag f[3] varies)
                 out.append(((int(f[0]), int(f[1]), int(f[4])), int(f[5][3:])))
         return out
 
